@@ -245,6 +245,22 @@ def gen(rng: Rng, tier: str, index: int) -> dict:
         return {'pop': 'exh', 'kind': kind, 'text': text, 'opts': opts, 'steps': steps, 'err': 'default'}
     r = rng.child('text')
     x = r.random()
+    if x < 0.03:
+        # long repetitive inputs: a linear-time, non-recursive tokenizer must cope with thousands of adjacent tokens/comments
+        unit = r.pick(['/**/', '/* */ ', '/*x*/\t', '//\n', '// c\r\n', '"a" ', '{', '}', '[x]', '(y)', '#d ', ' ', '\r\n', '\n', 'w ', '""', ',', '=', ':', '+',
+                       '"\\n"', '/*\n*/'])
+        n = r.pick([300, 600, 1100, 2500])
+        text = unit * n + r.pick(['', '"', '/*', 'x', '"a'])
+        ro = rng.child('opts')
+        bits = ro.randrange(128) | (0b0001000 if '/*' in unit else 0)
+        kind = 'tok' if ro.chance(0.8) else 'kv'
+        if kind == 'kv':
+            kb = ro.randrange(32)
+            opts = {nm: bool(kb >> k & 1) for k, nm in enumerate(KV_OPT_NAMES)}
+        else:
+            opts = _opts_from_bits(bits)
+        return {'pop': 'repeat', 'kind': kind, 'text': text, 'opts': opts,
+                'steps': [{'mode': 'chunks', 'cuts': list(range(4096, len(text), 4096))}], 'err': 'default'}
     if x < 0.4:
         n = r.randrange(0, 40) if r.chance(0.8) else r.randrange(40, 400)
         text = ''.join(_rand_char(r) for _ in range(n))
